@@ -35,6 +35,8 @@ func main() {
 		os.Exit(cmdWorker(os.Args[2:]))
 	case "replay":
 		os.Exit(cmdReplay(os.Args[2:]))
+	case "c08one":
+		os.Exit(cmdC08One(os.Args[2:]))
 	case "selftest":
 		os.Exit(cmdSelftest(os.Args[2:]))
 	default:
